@@ -14,7 +14,7 @@ class C12(OutstationProp):
             "transmit buffers from 249 bytes, in every session state; non-trivial = a fragment was transmitted")
 
     def cases(self, rng, tier):
-        n = 300 if tier == "quick" else 5000
+        n = 600 if tier == "quick" else 5000
         out = self.cases_session(rng, n // 2, focus=None)
         for i in range(n // 2):
             cfg = self.base_cfg(rng)
